@@ -82,7 +82,9 @@ class AbstractDenseTimeOnlineInterpreter(AbstractOnlineInterpreter, DenseTimeInt
     def set_variable_to_ast_from_dataset(self, dataset):
         for data in dataset:
             var_name = data[0]
-            var_object = data[1]
+            # the operations keep samples they cannot consume yet: they keep copies, so that a caller
+            # who refills its own lists for the next update does not change what was supplied in this one
+            var_object = [list(sample) if isinstance(sample, list) else sample for sample in data[1]]
             if data[0] in self.ast.free_vars:
                 self.ast.var_object_dict[var_name] = var_object
                 self.ast.inputs[var_name] = var_object
